@@ -324,10 +324,20 @@ Definition clean_text (l : list cluster) : bool := C10_Model.cleanb l && forallb
       fn 2 mean_ed        cfg (normalized g)          data (seqs targets)       lists of cluster lists
       fn 3 whitespace F1  cfg (beta seq_avg mode g)   data (inputs preds targets)
       fn 4 spelling F1    cfg (beta seq_avg g)        data (inputs preds targets)
-      beta = (num den)
+      beta = (num den) | (1 s m e)
     output = (0 x) Ok x | (1) Err | (-1) model panic value | (-777) implementation panic
       x = (f p r) | number | ((f p r) infos), infos = list of (tp fp fn), each a list of (pos op) *)
 Definition v_q (v : val) : Q := v_z (v_nth 0 v) # Z.to_pos (v_z (v_nth 1 v)).
+(** beta: a rational [(num den)] (older corpus files) or the fields [(1 s m e)] of a finite non-zero
+    binary64 (value m * 2^e, s = 1 negative; see C13_Float.v); zero and non-finite betas read as 0 *)
+Definition v_beta (v : val) : Q :=
+  match v with
+  | L [I n; I d] => n # Z.to_pos d
+  | L [I 1%Z; I s; I m; I e] =>
+    let m' := (if Z.eqb s 0 then m else - m)%Z in
+    if (0 <=? e)%Z then (m' * 2 ^ e)%Z # 1 else m' # Z.to_pos (2 ^ (- e))
+  | _ => 0%Q
+  end.
 Definition num_v (q : Q) : val := let q' := Qred q in L [I (Qnum q'); I 0%Z; I (Zpos (Qden q'))].
 Definition fpr_v (x : fpr) : val := match x with (f, p, r) => L [num_v f; num_v p; num_v r] end.
 Definition v_cll (v : val) : list (list cluster) := v_list (v_list (v_list v_n)) v.
@@ -348,14 +358,14 @@ Definition run_C13 (v : val) : val :=
   let cfg := v_nth 1 v in
   let d := v_nth 2 v in
   match v_z (v_nth 0 v) with
-  | 0%Z => opt_out fpr_v (binary_f1 (v_q (v_nth 0 cfg)) (v_list v_bool (v_nth 0 d)) (v_list v_bool (v_nth 1 d)))
+  | 0%Z => opt_out fpr_v (binary_f1 (v_beta (v_nth 0 cfg)) (v_list v_bool (v_nth 0 d)) (v_list v_bool (v_nth 1 d)))
   | 1%Z => opt_out num_v (accuracy (v_list v_z (v_nth 0 d)) (v_list v_z (v_nth 1 d)))
   | 2%Z => opt_out num_v (mean_ed (v_bool (v_nth 0 cfg)) (v_cll (v_nth 0 d)) (v_cll (v_nth 1 d)))
   | 3%Z => outcome_out (fun x => L [fpr_v (fst x); list_v winfo_v (snd x)])
-             (ws_f1 (v_q (v_nth 0 cfg)) (v_bool (v_nth 1 cfg)) (v_mode (v_nth 2 cfg))
+             (ws_f1 (v_beta (v_nth 0 cfg)) (v_bool (v_nth 1 cfg)) (v_mode (v_nth 2 cfg))
                     (v_cll (v_nth 0 d)) (v_cll (v_nth 1 d)) (v_cll (v_nth 2 d)))
   | 4%Z => outcome_out fpr_v
-             (sp_f1 (v_q (v_nth 0 cfg)) (v_bool (v_nth 1 cfg))
+             (sp_f1 (v_beta (v_nth 0 cfg)) (v_bool (v_nth 1 cfg))
                     (v_cll (v_nth 0 d)) (v_cll (v_nth 1 d)) (v_cll (v_nth 2 d)))
   | _ => panic_v
   end.
